@@ -86,6 +86,15 @@ def applyAllFixed (t : CodeTable) : Inst → List FixLine → Nat → Except Fix
     | .error e => .error e
     | .ok (i', warned) => applyAllFixed t i' r (if warned then w + 1 else w)
 
+def pilStmtJson : Pil.Stmt → Json
+  | .seq n t => Json.mkObj [("k", "seq"), ("name", Json.str n), ("tmpl", Json.str (String.ofList t))]
+  | .sup n its => Json.mkObj [("k", "sup"), ("name", Json.str n), ("items", Json.arr (its.map Json.str).toArray)]
+  | .strand n d its => Json.mkObj [("k", "strand"), ("name", Json.str n), ("dummy", Json.bool d), ("items", Json.arr (its.map Json.str).toArray)]
+  | .struct n p ss st => Json.mkObj [("k", "struct"), ("name", Json.str n), ("params", match p with | some x => Json.str x | none => Json.null),
+      ("strands", Json.arr (ss.map Json.str).toArray), ("struct", Json.str (String.ofList st))]
+  | .equal its => Json.mkObj [("k", "equal"), ("items", Json.arr (its.map Json.str).toArray)]
+  | .kinetic => Json.mkObj [("k", "kinetic")]
+
 def errClass : Sys.Err → String
   | .comp _ => "reject" | _ => "reject"
 
@@ -115,6 +124,7 @@ def handle? (op : String) (j : Json) : Option Json :=
       | .ok (inst', warns) =>
         let lines := if str j "format" == "des" then Sys.emitDesInst inst' else Sys.emitPilInst inst'
         Json.mkObj [("ok", Json.mkObj [("lines", Json.arr (lines.map Json.str).toArray), ("anon", Json.num anon'),
+                                       ("stmts", Json.arr ((Emit.instStmts inst').map pilStmtJson).toArray),
                                        ("fix_warnings", Json.num warns)])])
   | _ => none
 
